@@ -468,7 +468,7 @@ func (runInfo *runInfoStruct) makeCallArgs(rt reflect.Type, isRunVMFunction bool
 				runInfo.rv = nilValue
 				return nil, false
 			}
-			args = append(args, runInfo.rv)
+			args = append(args, detachValue(runInfo.rv))
 		}
 		indexIn++
 		indexInReal++
@@ -496,7 +496,7 @@ func (runInfo *runInfoStruct) makeCallArgs(rt reflect.Type, isRunVMFunction bool
 				runInfo.rv = nilValue
 				return nil, false
 			}
-			args = append(args, runInfo.rv)
+			args = append(args, detachValue(runInfo.rv))
 		}
 		return args, false
 	}
@@ -535,7 +535,7 @@ func (runInfo *runInfoStruct) makeCallArgs(rt reflect.Type, isRunVMFunction bool
 					runInfo.rv = nilValue
 					return nil, false
 				}
-				args = append(args, runInfo.rv)
+				args = append(args, detachValue(runInfo.rv))
 			}
 			indexIn++
 			indexInReal++
@@ -569,7 +569,7 @@ func (runInfo *runInfoStruct) makeCallArgs(rt reflect.Type, isRunVMFunction bool
 				runInfo.rv = nilValue
 				return nil, false
 			}
-			args = append(args, runInfo.rv)
+			args = append(args, detachValue(runInfo.rv))
 		}
 		return args, false
 	}
@@ -590,7 +590,7 @@ func (runInfo *runInfoStruct) makeCallArgs(rt reflect.Type, isRunVMFunction bool
 				runInfo.rv = nilValue
 				return nil, false
 			}
-			args = append(args, runInfo.rv)
+			args = append(args, detachValue(runInfo.rv))
 			indexExpr++
 		}
 		return args, false
@@ -615,7 +615,7 @@ func (runInfo *runInfoStruct) makeCallArgs(rt reflect.Type, isRunVMFunction bool
 		runInfo.rv = nilValue
 		return nil, false
 	}
-	args = append(args, runInfo.rv)
+	args = append(args, detachValue(runInfo.rv))
 
 	return args, true
 }
